@@ -62,13 +62,13 @@ namespace HI
 def unary : List Exc := [.typeError, .valueError]
 def addition : List Exc := [.typeError, .valueError, .overflow]
 def multiplication : List Exc := [.typeError, .zeroDiv, .valueError, .overflow]
-def relation : List Exc := [.typeError]
+def relation : List Exc := [.typeError, .valueError, .overflow]
 def memberIndex : List Exc := [.typeError, .keyError, .indexError]
 def logical : List Exc := [.typeError]
 def mapLit : List Exc := [.valueError, .typeError]
 def literal : List Exc := [.valueError]
 /-- the `try` around `function(*args)` in `function_eval` / `method_eval` -/
-def call : List Exc := [.valueError, .typeError, .attributeError]
+def call : List Exc := [.valueError, .overflow, .typeError, .attributeError, .other]
 /-- `build_ss_macro_eval` and the map/filter/exists_one branches of `member_dot_arg` -/
 def macroBody : List Exc := [.celEval]
 end HI
